@@ -207,8 +207,10 @@ func GenDB(r *rand.Rand, maxGraphs, maxNodes, maxRels int) DBSpec {
 		gs := GraphSpec{Name: names[g]}
 		nn := r.IntN(maxNodes + 1)
 		id := uint64(r.IntN(3))
-		if r.IntN(5) == 0 {
+		if x := r.IntN(15); x < 3 {
 			id = 1 << 33
+		} else if x == 3 {
+			id = 1<<63 + uint64(r.IntN(5)) // ids in the upper half of the unsigned range
 		}
 		zeroFirst := r.IntN(4) == 0 // ids start at 0 (Neo4j issues id 0)
 		for i := 0; i < nn; i++ {
